@@ -2,10 +2,19 @@
 """Mutation sweep over the routing core (pointindex.go): flips every certain/mutex flag of the quadrant table and every
 comparison operator of lineIntersects / containsPoint / getInfiniteQuadrant / InsertCoord, one at a time, on a scratch copy
 of the repository; mutants that still pass the repository's own tests are run against ./check C02 quick (and C09 for
-InsertCoord). Prints one line per mutant. Usage: tools/flag_sweep.py <repo> [max]   (run from a /verif snapshot)"""
+InsertCoord). Prints one line per mutant. Usage: tools/flag_sweep.py <repo> [max] [--only=i,j,...] [--tier=thorough]   (run from a /verif snapshot)"""
 import re, subprocess, sys, os, shutil, tempfile
 repo = sys.argv[1]
-limit = int(sys.argv[2]) if len(sys.argv) > 2 else 10**9
+limit = 10**9
+only = None
+tier = 'quick'
+for a in sys.argv[2:]:
+    if a.startswith('--only='):
+        only = set(int(x) for x in a[7:].split(','))
+    elif a.startswith('--tier='):
+        tier = a[7:]
+    else:
+        limit = int(a)
 env = dict(os.environ, GOFLAGS='-mod=mod', GOPROXY='off', GOSUMDB='off', GOTOOLCHAIN='local')
 src = open(os.path.join(repo, 'pointindex/pointindex.go')).read().split('\n')
 def func_range(name):
@@ -37,6 +46,8 @@ shutil.copytree(repo, copy, ignore=shutil.ignore_patterns('.git'))
 res = {'killed_by_repo_tests': 0, 'caught': 0, 'missed': 0}
 try:
     for k, (i, s, e, new, desc, checks) in enumerate(muts[:limit]):
+        if only is not None and k not in only:
+            continue
         lines = list(src)
         lines[i] = lines[i][:s] + new + lines[i][e:]
         open(os.path.join(copy, 'pointindex/pointindex.go'), 'w').write('\n'.join(lines))
@@ -48,7 +59,7 @@ try:
         verdicts = []
         caught = False
         for c in checks:
-            r = subprocess.run(['./check', c, 'quick'], env=dict(env, VERIF_REPO=copy), capture_output=True, text=True)
+            r = subprocess.run(['./check', c, tier], env=dict(env, VERIF_REPO=copy), capture_output=True, text=True)
             n = sum(1 for l in r.stdout.split('\n') if l.startswith('VIOLATION'))
             verdicts.append(f'{c}: exit {r.returncode}, {n} violation classes')
             caught = caught or r.returncode == 1
